@@ -165,6 +165,12 @@ func init() {
 					do(sc.Src)
 				}
 			}
+			for _, s := range gen.KeywordIdents() {
+				do(s)
+			}
+			for _, s := range gen.ScopeExit() {
+				do(s)
+			}
 			// shadowing to depth 8 and name reuse between variables and fields
 			for d := 1; d <= 8; d++ {
 				src := "var x = 0; "
@@ -208,9 +214,13 @@ func init() {
 			do(`def b "nm" { NAME = "label"; id = NAME; print NAME; def TYPE {}; print TYPE; t = TYPE }`)
 			do(`def b "nm" { def NAME "x" {}; def in { print NAME; print TYPE; TYPE = 3; y = TYPE } }`)
 			for _, sc := range gen.ScaledFamilies(false) {
-				if strings.HasPrefix(sc.Name, "manyblocks-") || strings.HasPrefix(sc.Name, "constpool-bind") {
+				if strings.HasPrefix(sc.Name, "manyblocks-") || strings.HasPrefix(sc.Name, "constpool-bind") || strings.HasPrefix(sc.Name, "nest") {
 					do(sc.Src)
 				}
+			}
+			// identifiers that begin with a keyword, as block types, names, fields and variables
+			for _, s := range gen.KeywordIdents() {
+				do(s)
 			}
 		},
 		quickLen: 5, thorLen: 6, maxNest: 3, budgetQ: 100, budgetT: 1500,
